@@ -124,6 +124,11 @@ type PoolConf struct {
 	ID      string   `json:"id"`
 	Subnets []string `json:"subnets"`
 	IPs     []string `json:"ips"`
+	// optional literal overrides (C13): pod subnet, gateway, vlan and ip range strings
+	RawSubnet  string   `json:"-"`
+	RawGateway string   `json:"-"`
+	RawVlan    int      `json:"-"`
+	RawIPs     []string `json:"-"`
 }
 
 // Config is an abstract floatingip configuration: pools share the pod subnet 10.0.0.0/24 (gateway
@@ -173,6 +178,9 @@ func (c Config) JSON() string {
 		}
 		if e.IPs == nil {
 			e.IPs = []string{}
+		}
+		if p.RawSubnet != "" {
+			e.Subnet, e.Gateway, e.Vlan, e.IPs = p.RawSubnet, p.RawGateway, p.RawVlan, p.RawIPs
 		}
 		out = append(out, e)
 	}
